@@ -219,6 +219,10 @@ Section Model.
     latopt : Z -> option (list (Z * Z))  (* --lattice option by cell *)
   }.
 
+  (* former name of the rounding field (kept for the properties that import this
+     model: C14 builds an environment positionally with it) *)
+  Definition pyround (e : env) : T -> Z := tround e.
+
   Inductive funiv := FInt (u : Z) | FList (l : list (option Z)).   (* None = a J jump *)
 
   (* the defaultdict of parse_keywords *)
